@@ -113,7 +113,9 @@ def raise (v : Val) (s : VM) : VM :=
 
 def setTop (s : VM) (f : Frame) (rest : List Frame) : VM := { s with frames := f :: rest }
 
-def fetchAt (code : Code) (fn ip : Nat) : Option Ins := (code.getD fn [])[ip]?
+def fnCode (code : Code) (fn : Nat) : List Ins := code.getD fn []
+
+def fetchAt (code : Code) (fn ip : Nat) : Option Ins := (fnCode code fn)[ip]?
 
 /-- one instruction (the `Err` arm of `execute_instructions` is `raise`) -/
 def step (code : Code) (s : VM) : VM :=
